@@ -48,6 +48,11 @@ var noiseEvaluate = []string{
 	"translate('abc', 'a', sum('z'))", "matches('a', concat('(', ''))", "replace('a', concat('[', ''), 'r')",
 	"//a[contains(., 1)]", "concat(name(//a), sum(string(//a)))", "substring-after('x', sum('w'))", "reverse(1)",
 	"//a[position() = sum('v')]", "count(//a[last() = sum('u')])",
+	// an abort after a stateful query has recorded something: union and sequence (identity
+	// table), ancestor (table), following/preceding, descendant, merge (buffer), filter (positions)
+	"//a | //b | //a[contains(., 1)]", "//a/(b, a, a[contains(1, 1)])", "//a/ancestor-or-self::*[sum('t') = 1]",
+	"//b/preceding::*[contains(1, 1)]", "//a/following::*[sum('s') = 1]", "//a//*[contains(1, 1)]", "//a/a[1][contains(1, 1)]",
+	"//a[@x][1][sum('r') = 1]", "concat('zz', replace('b', '(', 'c'))", "normalize-space(concat(' q ', replace('b', '[', 'c')))",
 }
 var noiseDoc = xdoc.MustParse("<a x='1'><a>{t}</a><b/></a>")
 
